@@ -218,6 +218,8 @@ def user_objective(cfg):
         raw = g
     if cfg.get('ret', 'pyfloat') == 'pyfloat':
         return lambda x: float(raw(x))
+    if cfg.get('ret') == 'longdouble':              # an extended-precision objective: values that no double equals
+        return lambda x: np.longdouble(raw(x)) * LD_FACTOR
     return lambda x: np.float64(raw(x))
 
 
@@ -236,6 +238,14 @@ def site_of(frame):
 
 def opy_frames(tb_or_frame_list):
     return [f for f in tb_or_frame_list if '/opytimizer/' in f[0]]
+
+
+LD_FACTOR = np.longdouble(1) + np.longdouble(2) ** -60        # a product with it is not a double unless the value is 0 / inf / nan
+
+
+def fnum(v):
+    """the number a fitness is, without rounding an extended-precision scalar (np.longdouble) to a double"""
+    return v if isinstance(v, np.longdouble) else float(v)
 
 
 def same(a, b):
@@ -378,7 +388,7 @@ class Monitor:
                'copy': np.array(x, copy=True) if isinstance(x, np.ndarray) else x}
         i = len(self.evals)
         self.evals.append(rec)
-        fv = float(val)
+        fv = fnum(val)
         if (why == 'nan' or fv != fv) and self.first_bad is None:
             self.first_bad = i
         if fv == fv and self.first_bad is None:
@@ -552,7 +562,7 @@ class Monitor:
             return
         b0f, b0p = self.best0
         b = space.best_agent
-        bf = float(b.fit)
+        bf = fnum(b.fit)
         if not (b0f == b0f) or not (bf == bf):
             return
         improved = self.minval is not None and self.minval < b0f
@@ -580,7 +590,7 @@ class Monitor:
         if self.minval is None:
             return
         b = space.best_agent
-        bf = float(b.fit)
+        bf = fnum(b.fit)
         if self.cfg['objective'] == 'float_max' or self.minval >= FLOAT_MAX:
             if not any(eqarr(r['copy'], b.position) for r in self.minargs):
                 self.v('C02', 'FLOAT_MAX-objective', 'objective == sys.float_info.max everywhere: the best agent keeps its initial all-zero '
@@ -634,10 +644,10 @@ class Monitor:
                 fv = self.raw(space.best_agent.position)
                 b0 = getattr(self, 'best0', None)
                 other_obj = any(pr.get('objective') and pr['objective'] != self.cfg['objective'] for pr in self.cfg.get('prelude') or [])
-                if other_obj and b0 is not None and same(float(space.best_agent.fit), b0[0]) and eqarr(space.best_agent.position, b0[1]):
+                if other_obj and b0 is not None and same(fnum(space.best_agent.fit), b0[0]) and eqarr(space.best_agent.position, b0[1]):
                     pass        # the earlier tasks optimised ANOTHER objective: the inherited (best agent, best tree) pair legitimately
                     #             survives until this task finds something below it (C12_task_histories: "or still the pair it started with")
-                elif not same(float(fv), float(space.best_agent.fit)):
+                elif not same(fnum(fv), fnum(space.best_agent.fit)):
                     self.v('C12', 'best-fit-not-f(best-position)', 'f(best_agent.position)=%r differs from best_agent.fit=%r (%s)' % (fv, space.best_agent.fit, when),
                            fv, space.best_agent.fit)
         for i, (t, a) in enumerate(zip(trees, space.agents)):
@@ -647,7 +657,7 @@ class Monitor:
                 self.v('C12', 'agent-position-differs-from-tree-value', 'agent %d position differs from clip(tree %d value) (%s)' % (i, i, when), a.position, cl)
             elif np.all(np.isfinite(a.position)):
                 fv = self.raw(a.position)
-                if not same(float(fv), float(a.fit)):
+                if not same(fnum(fv), fnum(a.fit)):
                     self.v('C12', 'agent-fit-not-f(position)', 'agent %d fit %r differs from f(position)=%r (%s)' % (i, a.fit, fv, when), a.fit, fv)
 
 
@@ -789,7 +799,7 @@ def execute(cfg, light=False, seed=None):
             mon.space, mon.opt, mon.fn = space, opt, fn
             if cfg.get('prelude'):
                 try:
-                    mon.best0 = (float(space.best_agent.fit), np.array(space.best_agent.position, copy=True))
+                    mon.best0 = (fnum(space.best_agent.fit), np.array(space.best_agent.position, copy=True))
                 except Exception:  # noqa: BLE001
                     mon.best0 = None
             if cfg.get('other_space'):
@@ -1067,7 +1077,7 @@ def check_c20(mon):
             if p.shape != mon.shape or not np.all(np.isfinite(p)):
                 continue
             fv = mon.raw(p)
-            if not same(float(fv), float(fit)):
+            if not same(fnum(fv), fnum(fit)):
                 moved = d is not None and not any(d['arr_ids'][i] is r['arr'] and eqarr(r['copy'], np.asarray(pos, dtype=float))
                                                   for r in mon.evals[max(0, d['n_evals'] - 4 * cfg['n_agents'] - 2):d['n_evals']])
                 key = '%s:record-fit-not-f(%s)%s' % (name, 'local' if swarm else 'position', ':position-moved-after-its-evaluation' if moved else '')
@@ -1075,8 +1085,8 @@ def check_c20(mon):
                 break
     if (name in GREEDY_AGENT or name in GREEDY_RANK) and not moving:
         for t in range(1, len(ag)):
-            a0 = [float(x[1]) for x in ag[t - 1]]
-            a1 = [float(x[1]) for x in ag[t]]
+            a0 = [fnum(x[1]) for x in ag[t - 1]]
+            a1 = [fnum(x[1]) for x in ag[t]]
             if name in GREEDY_RANK:
                 a0, a1 = sorted(a0), sorted(a1)
             for i, (x, y) in enumerate(zip(a0, a1)):
@@ -1110,7 +1120,7 @@ def check_c02_records_fixed(mon):
         if then is None:
             continue
         try:
-            same_now = eqarr(np.asarray(rec[0], dtype=float), np.asarray(then[0], dtype=float)) and same(float(rec[1]), float(then[1]))
+            same_now = eqarr(np.asarray(rec[0], dtype=float), np.asarray(then[0], dtype=float)) and same(fnum(rec[1]), fnum(then[1]))
         except Exception:  # noqa: BLE001
             same_now = False
         if not same_now:
@@ -1122,7 +1132,7 @@ def check_c02_mono(mon):
     check_c02_records_fixed(mon)
     if str(mon.cfg.get('hook')).startswith('move') or mon.first_bad is not None:
         return
-    b = [float(x[1]) for x in getattr(mon.hist, 'best_agent', [])]
+    b = [fnum(x[1]) for x in getattr(mon.hist, 'best_agent', [])]
     for t in range(1, len(b)):
         if b[t] > b[t - 1]:
             mon.v('C02', 'best-fit-increased', 'recorded best fitness increased from %r to %r at record %d' % (b[t - 1], b[t], t), b[t], '<= %r' % b[t - 1])
